@@ -1,12 +1,15 @@
 package main
 
 import (
+	"bufio"
+	"bytes"
 	"errors"
 	"fmt"
 	"io"
 	"reflect"
 	"strconv"
 	"strings"
+	"sync"
 
 	"github.com/tormoder/fit"
 )
@@ -130,15 +133,28 @@ func hasOpt(t *Task, o string) bool {
 
 // sharedOpts holds the option values that tasks with SharedOpts re-use: a
 // caller may build its options once and pass the same values to every call.
-// Sequential engines only; reset at the start of every scenario.
-var sharedOpts = map[string]fit.DecodeOption{}
+// Reset at the start of every scenario.
+var (
+	sharedOptsMu sync.Mutex
+	sharedOpts   = map[string]fit.DecodeOption{}
+)
 
-func resetSharedOpts() { sharedOpts = map[string]fit.DecodeOption{} }
+func resetSharedOpts() {
+	sharedOptsMu.Lock()
+	sharedOpts = map[string]fit.DecodeOption{}
+	sharedOptsMu.Unlock()
+}
 
+// optionValue returns a fresh option value, or for tasks with SharedOpts the
+// one value of the scenario (under the conc engine the tasks of one scenario
+// then hand the same value to concurrent calls, as a caller with a
+// package-level options slice would).
 func optionValue(t *Task, name string, mk func() fit.DecodeOption) fit.DecodeOption {
 	if !t.SharedOpts {
 		return mk()
 	}
+	sharedOptsMu.Lock()
+	defer sharedOptsMu.Unlock()
 	if o, ok := sharedOpts[name]; ok {
 		return o
 	}
@@ -152,8 +168,21 @@ func optionValue(t *Task, name string, mk func() fit.DecodeOption) fit.DecodeOpt
 func runTask(t *Task, media map[string][]byte, sched Yielder, prior map[int]*Result) (res *Result) {
 	res = &Result{Task: t.ID, Call: t.Call, ErrClass: "nil"}
 	var rd *SimReader
+	var src io.Reader
+	var nat *bytes.Reader
+	var natBuf *bufio.Reader
+	natCut := false
 	var lg *SimLogger
 	finish := func() {
+		if nat != nil {
+			left := nat.Len()
+			if natBuf != nil {
+				left += natBuf.Buffered()
+			}
+			res.Delivered = int(nat.Size()) - left
+			res.MaxWantEnd = res.Delivered
+			res.CutFired = natCut && left == 0
+		}
 		if rd != nil {
 			res.Delivered = rd.pos
 			res.MaxWantEnd = rd.maxWantEnd
@@ -191,6 +220,24 @@ func runTask(t *Task, media map[string][]byte, sched Yielder, prior map[int]*Res
 			fatalInfra("task %d: unknown medium %q", t.ID, t.In)
 		}
 		rd = NewSimReader(m, t.Read, sched, t.ID)
+		src = rd
+		if t.Read.Native != "" && sched == nil && t.Read.Fail == nil {
+			end := len(m)
+			if c := t.Read.Cut; c != nil && c.At < end {
+				end = c.At
+				if end < 0 {
+					end = 0
+				}
+				natCut = true
+			}
+			nat = bytes.NewReader(m[:end])
+			src = nat
+			if t.Read.Native == "bufio" {
+				natBuf = bufio.NewReaderSize(nat, 16+len(m)%97)
+				src = natBuf
+			}
+			rd = nil
+		}
 	}
 	var opts []fit.DecodeOption
 	if hasOpt(t, "logger") {
@@ -205,12 +252,12 @@ func runTask(t *Task, media map[string][]byte, sched Yielder, prior map[int]*Res
 	}
 	switch t.Call {
 	case "Decode":
-		f, err := fit.Decode(rd, opts...)
+		f, err := fit.Decode(src, opts...)
 		setErr(err)
 		res.file = f
 		res.Dump = dumpFile(f)
 	case "DecodeChained":
-		fs, err := fit.DecodeChained(rd, opts...)
+		fs, err := fit.DecodeChained(src, opts...)
 		setErr(err)
 		res.files = fs
 		res.NFiles = len(fs)
@@ -218,16 +265,16 @@ func runTask(t *Task, media map[string][]byte, sched Yielder, prior map[int]*Res
 			res.Dumps = append(res.Dumps, dumpFile(f))
 		}
 	case "CheckIntegrity":
-		setErr(fit.CheckIntegrity(rd, false))
+		setErr(fit.CheckIntegrity(src, false))
 	case "CheckIntegrityHeader":
-		setErr(fit.CheckIntegrity(rd, true))
+		setErr(fit.CheckIntegrity(src, true))
 	case "DecodeHeader":
-		h, err := fit.DecodeHeader(rd)
+		h, err := fit.DecodeHeader(src)
 		setErr(err)
 		res.hdr = h
 		res.Dump = []string{"Header=" + canonStruct(reflect.ValueOf(h))}
 	case "DecodeHeaderAndFileID":
-		h, id, err := fit.DecodeHeaderAndFileID(rd)
+		h, id, err := fit.DecodeHeaderAndFileID(src)
 		setErr(err)
 		res.hdr, res.fid = h, id
 		res.Dump = []string{"Header=" + canonStruct(reflect.ValueOf(h)), "FileId=" + canonStruct(reflect.ValueOf(id))}
@@ -296,7 +343,16 @@ func runTask(t *Task, media map[string][]byte, sched Yielder, prior map[int]*Res
 				f.Header.ProtocolVersion = byte(v)
 			}
 			w := &SimWriter{sched: sched, task: t.ID, failAt: t.WriteFail}
-			err := fit.Encode(w, f, archOf(t.Arch))
+			var err error
+			if t.Sink == "buffer" && sched == nil && t.WriteFail == 0 {
+				// a *bytes.Buffer as the sink (also an io.ByteWriter, io.StringWriter, io.ReaderFrom)
+				var bb bytes.Buffer
+				err = fit.Encode(&bb, f, archOf(t.Arch))
+				w.buf = append([]byte(nil), bb.Bytes()...)
+				w.sizes = []int{len(w.buf)}
+			} else {
+				err = fit.Encode(w, f, archOf(t.Arch))
+			}
 			setErr(err)
 			res.Outs = append(res.Outs, w.buf)
 			res.Repeats = i + 1
